@@ -168,14 +168,14 @@ PROPS = {
     "C13": {
         "level": "proof",
         "lean_modules": ["SqlizeModel.Props.C13", "SqlizeModel.Props.TieElement", "SqlizeModel.Props.TieApiLoad"],
-        "theorems": ["Sqlize.C13.default_order", "Sqlize.C13.ignore_same_statements", "Sqlize.C13.ignore_no_position", "Sqlize.C13.ignore_appends", "Sqlize.C13.printed_ignore", "Sqlize.walkCols_up_ignore_refines", "Sqlize.C13.columns_from_scripts", "Sqlize.columns_end_to_end_ignore", "Sqlize.Tie.element_skeleton_as_modelled", "Sqlize.Tie.api_load_skeleton_as_modelled"],
+        "theorems": ["Sqlize.C13.default_order", "Sqlize.C13.ignore_same_statements", "Sqlize.C13.ignore_no_position", "Sqlize.C13.ignore_appends", "Sqlize.C13.printed_ignore", "Sqlize.walkCols_up_ignore_refines", "Sqlize.C13.columns_from_scripts", "Sqlize.columns_end_to_end_ignore", "Sqlize.Tie.element_skeleton_as_modelled", "Sqlize.Tie.api_load_skeleton_as_modelled", "Sqlize.C13.option_changes_positions_only", "Sqlize.C13.option_predicates", "Sqlize.Migration.strip_migrate"],
         "suites": [{"name": "pair"}, {"name": "history"}],
         "corr_points": ["load-old", "load-new", "state-old", "state-new", "Diff", "state-diff", "StringUp", "StringDown"],
         "rule": PAIR_RULE,
         "trusted_base": COMMON_TB + PAIR_TB,
         "assumptions": PAIR_ASSUME,
         "explanation": "Proved for all column lists: default setting ends in the models' order; with the option the walk emits the same statements "
-                       "without positional clause, and executing them keeps surviving columns in place and appends the added ones.",
+                       "without positional clause, and executing them keeps surviving columns in place and appends the added ones. On the implementation model and for every input, dialect model and keyword case, with no hypothesis: the option only removes positional clauses from what modelUp / modelDown print (option_changes_positions_only), so the executable predicates c13Same and c13NoPositions hold of the model's output (option_predicates).",
     },
 
     "C05": {
